@@ -57,6 +57,7 @@ func init() {
 			obGate(c, "C01.2", r)
 			obPending(c, "C01.3", r)
 			obPendingScan(c, "C01.3b", r)
+			obReaderUnaltered(c, "C01.3c", r)
 			obPushBack(c, "C01.7", r)
 			obApplyPostings(c, "C01.4", r)
 			obSaveMonotone(c, "C01.5", r)
